@@ -434,13 +434,11 @@ def check_context_tables(chk, F):
                 rejected = bool(core) and all(is_err(l) for l in core)
                 accepted = core == {("ok",)}
                 want_reject = v in spec.CONTEXT_REJECTS[ctx]
-                # key kinds are enforced on pk_k and multi keys by this function
-                if v in ("PkK", "Multi", "SortedMulti", "MultiA", "SortedMultiA") and not want_reject:
+                # key kinds are enforced on every fragment that carries a key: from_ast and the compiler rely on this
+                # function alone (ValidationParams::validate_pk only runs on the parser's paths)
+                if v in ("PkK", "PkH", "Multi", "SortedMulti", "MultiA", "SortedMultiA") and not want_reject:
                     if kind in spec.CONTEXT_KEY_REJECTS[ctx]:
                         want_reject = True
-                if v == "PkH" and kind in spec.CONTEXT_KEY_REJECTS[ctx]:
-                    # pk_h keys are checked by ValidationParams (validate_pk), not here
-                    continue
                 key = "%s|%s|%s" % (ctx, v, kind) if v in spec.KEY_VARIANTS else "%s|%s" % (ctx, v)
                 chk.obligation(rid, (rejected and want_reject) or (accepted and not want_reject), key,
                                "%s context: a %s fragment (%s key) is %s, the context's rules say %s"
